@@ -27,6 +27,7 @@ ON_CLOSED = 'bumble.l2cap:ChannelManager.on_channel_closed'
 ON_CLOSED_EFFECT = 'bumble.l2cap:ChannelManager.on_channel_closed@effect'
 FRAME_INLINE = ['L2CAP_Control_Frame.__init__', 'L2CAP_Disconnection_Response.__init__', 'L2CAP_Disconnection_Request.__init__']
 CHAN_MOD = ['ghost.chans', 'ghost.cdicts', 'ghost.futs', 'ghost.queues', 'ghost.emitted', 'ghost.frames', 'ghost.idicts']
+ABORT_MOD = ['ghost.chans', 'ghost.cdicts', 'ghost.futs', 'ghost.queues', 'ghost.emitted']
 
 
 def futs_ok(c):
@@ -50,10 +51,13 @@ def released(self, old):
 
 
 def others_untouched(self, old, ghost):
-    """no other channel object and no other future changed"""
+    """the channel keeps its identity (manager, connection, CIDs); no other channel object and no other future changed"""
     return [
+        same(self.manager, old.self.manager) and same(self.connection, old.self.connection) and self.source_cid == old.self.source_cid and self.destination_cid == old.self.destination_cid,
         pool_same_except(ghost.chans, old.ghost.chans, [self]),
         pool_same_except(ghost.futs, old.ghost.futs, [old.self.connection_result, old.self.disconnection_result]),
+        # a completed future stays completed
+        forall_objs(old.ghost.futs, lambda f: f.st == PENDING or now(f).st != PENDING),
     ]
 
 
@@ -86,7 +90,7 @@ def le_abort_post(self, old, ghost):
 
 
 LE_ABORT_NAMES = ['open-channel-closed', 'otherwise-untouched', 'connection-result-cleared', 'connect-waiter-released',
-                  'disconnection-result-cleared', 'disconnect-waiter-released', 'drain-waiter-released', 'other-channels-untouched', 'other-futures-untouched']
+                  'disconnection-result-cleared', 'disconnect-waiter-released', 'drain-waiter-released', 'identity-kept', 'other-channels-untouched', 'other-futures-untouched', 'futures-only-complete']
 LE_INLINE = ['LeCreditBasedChannel._change_state', 'LeCreditBasedChannel.send_control_frame', 'LeCreditBasedChannel.flush_output'] + FRAME_INLINE
 
 LE_ABORT = dict(
@@ -95,7 +99,7 @@ LE_ABORT = dict(
     requires=lambda self: [is_le(self)] + distinct(self.manager) + registered_or_absent(self.manager, self) + futs_ok(self),
     ensures=lambda self, old, ghost: le_abort_post(self, old, ghost) + when(le_open(old.self), gone(self, old, ghost)),
     ensures_names=LE_ABORT_NAMES + EFFECT_NAMES,
-    modifies=CHAN_MOD,
+    modifies=ABORT_MOD,
 )
 contract('bumble.l2cap:LeCreditBasedChannel.abort', prop='C09', uses=[ON_CLOSED_EFFECT], inline=LE_INLINE, **LE_ABORT)
 contract('bumble.l2cap:LeCreditBasedChannel.abort', key='bumble.l2cap:LeCreditBasedChannel.abort@callee', **LE_ABORT)
@@ -115,7 +119,7 @@ def le_close_post(self, old, ghost):
     ] + others_untouched(self, old, ghost)
 
 
-LE_CLOSE_NAMES = ['closed', 'disconnection-result-cleared', 'disconnect-waiter-released', 'drain-waiter-released', 'other-channels-untouched', 'other-futures-untouched']
+LE_CLOSE_NAMES = ['closed', 'disconnection-result-cleared', 'disconnect-waiter-released', 'drain-waiter-released', 'identity-kept', 'other-channels-untouched', 'other-futures-untouched', 'futures-only-complete']
 
 contract(
     'bumble.l2cap:LeCreditBasedChannel.on_disconnection_request',
@@ -175,8 +179,8 @@ CL_ABORT = dict(
     ghost=HEAP,
     requires=lambda self: [not is_le(self)] + futs_ok(self),
     ensures=cl_abort_post,
-    ensures_names=['closed', 'disconnect-waiter-released', 'disconnect-future-completed', 'tables-untouched', 'other-channels-untouched', 'other-futures-untouched'],
-    modifies=CHAN_MOD,
+    ensures_names=['closed', 'disconnect-waiter-released', 'disconnect-future-completed', 'tables-untouched', 'identity-kept', 'other-channels-untouched', 'other-futures-untouched', 'futures-only-complete'],
+    modifies=ABORT_MOD,
 )
 contract('bumble.l2cap:ClassicChannel.abort', prop='C09', inline=CL_INLINE, **CL_ABORT)
 contract('bumble.l2cap:ClassicChannel.abort', key='bumble.l2cap:ClassicChannel.abort@callee', **CL_ABORT)
@@ -192,7 +196,7 @@ def cl_close_post(self, old, ghost):
     ] + others_untouched(self, old, ghost)
 
 
-CL_CLOSE_NAMES = ['closed', 'disconnect-waiter-released', 'disconnect-future-completed', 'connect-waiter-released', 'other-channels-untouched', 'other-futures-untouched']
+CL_CLOSE_NAMES = ['closed', 'disconnect-waiter-released', 'disconnect-future-completed', 'connect-waiter-released', 'identity-kept', 'other-channels-untouched', 'other-futures-untouched', 'futures-only-complete']
 
 contract(
     'bumble.l2cap:ClassicChannel.on_disconnection_request',
